@@ -354,6 +354,23 @@ Proof.
   rewrite G. cbn [wpath]. rewrite app_nil_r. reflexivity.
 Qed.
 
+(* ---- set_thread_cpus: the counted loop as rendered from the source = the fold free_tree writes *)
+Lemma loop_object_cpu c :
+  loop_object [(str_lit [105; 110; 100; 101; 120], fld_ovni_rcpu_index); (str_lit [112; 104; 121; 105; 100], fld_ovni_rcpu_phyid)] c
+  = Some (cpu_json c).
+Proof. reflexivity. Qed.
+
+Theorem set_thread_cpus_from_source sx st fs :
+  r_meta st = Some fs -> set_thread_cpus (Some tt) sx st = set_thread_cpus_fold (Some tt) sx st.
+Proof.
+  intros M. unfold set_thread_cpus, array_of_list_loop, set_thread_cpus_fold, get_rthread_cpus_list.
+  rewrite (all_some_map _ cpu_json) by (intros e _; apply loop_object_cpu).
+  unfold or_die, root_dotset, str_lit. rewrite M.
+  change (dotset fs [111; 118; 110; 105; 46; 108; 111; 111; 109; 95; 99; 112; 117; 115] (jarr (map cpu_json (r_cpus st))))
+    with (pset fs [k_ovni; k_loom_cpus] (jarr (map cpu_json (r_cpus st)))).
+  destruct (pset fs [k_ovni; k_loom_cpus] (jarr (map cpu_json (r_cpus st)))); reflexivity.
+Qed.
+
 (* ---- ovni_thread_free: rank, CPUs, ovni.finished, the store, then the flags (the calls outside the metadata state are the
    identity of RtMetaPre.v) *)
 Lemma ds_rank fs v : dotset fs [111; 118; 110; 105; 46; 114; 97; 110; 107] v = pset fs [k_ovni; k_rank] v.
@@ -363,7 +380,7 @@ Proof. reflexivity. Qed.
 Lemma ds_finished fs v : dotset fs [111; 118; 110; 105; 46; 102; 105; 110; 105; 115; 104; 101; 100] v = pset fs [k_ovni; k_finished] v.
 Proof. reflexivity. Qed.
 Ltac monf := cbv [bind bind_ eval ite ret fail or_die get_rthread_finished get_rthread_ready get_rthread_meta get_rthread_rank_set
-       get_rthread_cpus get_rthread_rank get_rthread_nranks json_value_get_object set_thread_rank set_thread_cpus
+       get_rthread_cpus get_rthread_rank get_rthread_nranks json_value_get_object set_thread_rank set_thread_cpus_fold
        json_object_dotset_number root_dotset str_lit free close move_thdir_to_final try_clean_dir set_rthread_evbuf
        set_rthread_streamfd get_rthread_evbuf get_rthread_streamfd get_rproc_move_to_final get_rthread_thdir get_rthread_thdir_final
        set_rthread_finished set_rthread_ready upd with_meta_ is_null
@@ -381,7 +398,9 @@ Proof.
   destruct fin; [monf; reflexivity|]. destruct rd; [|monf; reflexivity].
   unfold free_tree. cbn [t_rank t_cpus t_meta psets t_finished t_ready].
   destruct rank as [[r n]|]; destruct cpus as [|c0 cs];
-    repeat (monf; cbn [b2z Z.eqb negb orb]; rewrite ?ds_rank, ?ds_nranks, ?ds_finished;
+    repeat (monf; cbn [b2z Z.eqb negb orb];
+            try (erewrite set_thread_cpus_from_source by reflexivity; monf; cbn [b2z Z.eqb negb orb]);
+            rewrite ?ds_rank, ?ds_nranks, ?ds_finished;
             match goal with |- context [pset ?a ?b ?c] => let PG := fresh "PG" in destruct (pset a b c) as [?fs|] eqn:PG; align_pset PG end).
   all: try (monf; reflexivity).
   all: monf; cbn [b2z Z.eqb negb orb].
@@ -458,11 +477,71 @@ Proof.
   cbn [agrees wpath]. exists tt, node'. split; reflexivity.
 Qed.
 
+(* ---- the whole ovni_thread_init *)
+Lemma bind__eq {A B} (m : M A) (k : M B) sx st :
+  bind_ m k sx st = match m sx st with ROk (_, st') => k sx st' | RErr e => RErr e end.
+Proof. reflexivity. Qed.
+
+(* the whole generated ovni_thread_init = the model's ThreadInit case, refusals included: already initialised (ignored),
+   finished, tid 0, process not ready; then memset, tid, the buffer / stream calls (primitives outside the metadata state),
+   thread_metadata_init, ready, the implicit require *)
+Theorem thread_init_from_source sx s th tid node out :
+  path_ok sx tid = true ->
+  agrees sx th out (ovni_thread_init tid sx (rs_of s th node out)) (step src_cfg s th (ThreadInit tid)) no_val.
+Proof.
+  intros P. unfold step. destruct (in_dom (ThreadInit tid)) eqn:D; cbn [negb]; [|exact I].
+  unfold ovni_thread_init, rs_of, proc_ready.
+  destruct (tget (st_threads s) th) as [rd fin tid0 cpus rank meta] eqn:T.
+  cbv [ite get_rthread_ready get_rthread_finished get_rproc_st p_st r_ready r_finished t_ready t_finished].
+  destruct rd; cbn [b2z Z.eqb negb].
+  { cbn [agrees wpath ret]. exists tt, node. rewrite app_nil_r. split; [|reflexivity].
+    unfold ret, rs_of. rewrite T. reflexivity. }
+  destruct fin; cbn [b2z Z.eqb negb]; [reflexivity|].
+  destruct (tid =? 0) eqn:E0; [reflexivity|].
+  rewrite enc_ready. destruct (st_proc s) eqn:PS; cbn [negb]; try reflexivity.
+  rewrite bind__eq. unfold zero_rthread.
+  cbn [p_st p_app p_loom p_pid r_ready r_finished r_tid r_cpus r_node r_rank_set r_rank r_nranks r_meta r_out].
+  rewrite bind__eq. unfold set_rthread_tid, upd.
+  cbn [p_st p_app p_loom p_pid r_ready r_finished r_tid r_cpus r_node r_rank_set r_rank r_nranks r_meta r_out].
+  match goal with |- agrees _ _ _ ?X _ _ => assert (EQ : X = src_thread_init_meta sx (init_view s tid node out)) end.
+  { unfold src_thread_init_meta, init_view. rewrite PS.
+    cbv [bind_ bind set_rthread_evlen set_rthread_evbuf ite get_rthread_evbuf is_null create_thread_dir create_trace_stream
+         write_stream_header ret k_ovni c_model_version src_cfg].
+    match goal with |- context [thread_metadata_init ?e ?st] => destruct (thread_metadata_init e st) as [[[] st1]|e1]; [|reflexivity] end.
+    match goal with |- context [set_rthread_ready ?f ?e ?st] => destruct (set_rthread_ready f e st) as [[[] st2]|e2]; [|reflexivity] end.
+    match goal with |- context [ovni_thread_require ?a ?b ?e ?st] => destruct (ovni_thread_require a b e st) as [[[] st3]|e3]; reflexivity end. }
+  rewrite EQ.
+  destruct (thread_init_metadata_from_source sx s th tid node out P) as (node' & H). rewrite H.
+  destruct (populate src_cfg s tid) as [fs|]; [|reflexivity].
+  destruct (require_tree fs k_ovni (c_model_version src_cfg)) as [fs'|]; [|reflexivity].
+  cbn [agrees wpath]. exists tt, node'. split; reflexivity.
+Qed.
+
+(* ---- ovni_proc_init *)
+(* ovni_proc_init as generated = the model's ProcInit case: refused unless the process is uninitialised (the three die()
+   of the failed compare-exchange), loom name of OVNI_MAX_HOSTNAME bytes or more refused, then loom / pid / app and READY *)
+Theorem proc_init_from_source sx s th node out app loom pid :
+  agrees sx th out (ovni_proc_init app (Some loom) pid sx (rs_of s th node out)) (step src_cfg s th (ProcInit app loom pid)) no_val.
+Proof.
+  unfold step. destruct (in_dom (ProcInit app loom pid)); cbn [negb]; [|exact I].
+  unfold ovni_proc_init, rs_of.
+  cbv [bind bind_ eval ite ret fail cas_rproc_st with_proc strlen strcpy_rproc_loom set_rproc_pid set_rproc_app set_rproc_clockid
+       create_proc_dir set_rproc_st fst snd
+       p_st p_app p_loom p_pid r_ready r_finished r_tid r_cpus r_node r_rank_set r_rank r_nranks r_meta r_out].
+  destruct (st_proc s) eqn:PS; cbn [enc_pst]; try reflexivity.
+  change (0 =? c_ST_UNINIT) with true. cbv iota. change (1 =? 0) with false. cbn [negb].
+  change (cast_uint64 512) with 512. unfold OVNI_MAX_HOSTNAME.
+  destruct (512 <=? Z.of_nat (length loom)) eqn:L.
+  - destruct (Z.of_nat (length loom) >=? 512) eqn:L2; [reflexivity|lia].
+  - destruct (Z.of_nat (length loom) >=? 512) eqn:L2; [lia|].
+    cbn [agrees wpath]. exists tt, node. split; [|reflexivity]. rewrite app_nil_r. unfold rs_of. reflexivity.
+Qed.
+
 (* ------------------------------------------------------------------ all translated calls at once *)
 (* What "the generated code computes the step of the model" means for each call of the API whose C function is translated
-   and proved here.  NOT covered (the model's step stands alone for them): ovni_proc_init / ovni_proc_fini / ovni_flush
-   (not metadata functions of the unit), ovni_thread_init (memset / malloc into a field: its metadata part
-   thread_metadata_init + ovni_thread_require is generated and proved separately: thread_init_step_from_source). *)
+   and proved here.  NOT covered (the model's step stands alone for them): ovni_proc_fini / ovni_flush
+   (not metadata functions of the unit), (the event-buffer / stream-file calls inside ovni_thread_init and ovni_thread_free are primitives of RtMetaPre.v outside
+   the metadata state: units rtbuf / rtfs). *)
 Definition call_agrees (sx : renv) (s : state) (th : nat) (node : Z * Z) (out : list (str * json)) (o : op) : Prop :=
   match o with
   | AddCpu i p => agrees sx th out (ovni_add_cpu i p sx (rs_of s th node out)) (step src_cfg s th o) no_val
@@ -486,6 +565,10 @@ Definition call_agrees (sx : renv) (s : state) (th : nat) (node : Z * Z) (out : 
                             (fun a obs => exists j, a = Some (e_print sx j) /\ obs = Some j)
   | AttrFlush => agrees sx th out (ovni_attr_flush sx (rs_of s th node out)) (step src_cfg s th o) no_val
   | ThreadFree => agrees sx th out (ovni_thread_free sx (rs_of s th node out)) (step src_cfg s th o) no_val
+  | ProcInit app loom pid =>
+    agrees sx th out (ovni_proc_init app (Some loom) pid sx (rs_of s th node out)) (step src_cfg s th o) no_val
+  | ThreadInit tid => path_ok sx tid = true ->
+                      agrees sx th out (ovni_thread_init tid sx (rs_of s th node out)) (step src_cfg s th o) no_val
   | _ => True
   end.
 
@@ -493,7 +576,9 @@ Theorem metadata_calls_from_source sx s th node out o :
   path_ok sx (t_tid (tget (st_threads s) th)) = true -> call_agrees sx s th node out o.
 Proof.
   intros P. destruct o; cbn [call_agrees]; try exact I.
+  - apply proc_init_from_source.
   - apply set_rank_from_source.
+  - intros Pt. apply thread_init_from_source. exact Pt.
   - apply add_cpu_from_source.
   - apply require_from_source.
   - apply attr_set_str_from_source.
